@@ -323,6 +323,11 @@ func ParseCurrency(s string) (Currency, error) {
 	if unit == "" || unit == "H" {
 		return parseHastings(n)
 	}
+	// big.Rat.SetString accepts exponents of up to a million digits' worth;
+	// refuse exponents no valid Currency can need before building the number
+	if i := strings.LastIndexAny(n, "eEpP"); i >= 0 && len(strings.TrimLeft(n[i+1:], "+-")) > 3 {
+		return ZeroCurrency, errors.New("exponent too large")
+	}
 	// parse numeric part as a big.Rat
 	r, ok := new(big.Rat).SetString(n)
 	if !ok {
